@@ -586,7 +586,7 @@ func c15Check(c c15Case, r *ev.Recorder) *Failure {
 	complErr := strings.Contains(errText, "set complement cannot transitively depend on itself")
 	onlyConflicts := true
 	for _, line := range strings.Split(errText, "\n") {
-		if strings.TrimSpace(line) != "" && !strings.Contains(line, "conflict") && !strings.HasPrefix(line, " ") && !strings.HasPrefix(line, "\t") {
+		if strings.TrimSpace(line) != "" && !strings.Contains(line, "conflict") && !strings.Contains(line, ": input:") && !strings.HasPrefix(line, " ") && !strings.HasPrefix(line, "\t") {
 			onlyConflicts = false
 		}
 	}
